@@ -67,7 +67,8 @@ def check(ctx: Ctx) -> str:
     dflt_ok = len(dflt) == 1 and ("lineno is None", True) in astq.guard_atoms(pf.nnode, dflt[0])
     ctx.check(dflt_ok and "raise exc(msg, lineno, self.name, self.filename)" in s, "Parser.fail", "parser:Parser.fail", "default line", "Parser.fail must default to the current token's line", pf.loc())
     ex = repo.func("lexer:TokenStream.expect")
-    ctx.check(ast.unparse(ex.node).count("self.current.lineno") == 2, "TokenStream.expect", "lexer:TokenStream.expect", "error line", "TokenStream.expect must report the current token's line", ex.loc())
+    rs_ = [r.exc for r in astq.raises(ex.node) if isinstance(r.exc, ast.Call) and astq.callee(r.exc) == "TemplateSyntaxError"]
+    ctx.check(bool(rs_) and len(rs_) == len(astq.raises(ex.node)) and all(len(c.args) >= 2 and ast.unparse(c.args[1]) == "self.current.lineno" for c in rs_), "TokenStream.expect", "lexer:TokenStream.expect", "error line", "TokenStream.expect must report the current token's line", ex.loc())
     cl = repo.func("lexer:TokenStream.close")
     ctx.check("Token(self.current.lineno, TOKEN_EOF, '')" in cl.ntext, "TokenStream.close", "lexer:TokenStream.close", "eof line", "the EOF token must carry the last line", cl.loc())
     token_line_rules(ctx, "R3")
